@@ -14,7 +14,8 @@ CLAIMS = {
         text="Contract on the real static method TDGLSolver.solve_for_psi_squared, discharged for every per-site input "
              "(all psi, mu, epsilon, gamma>=0, u>0, dt>0, arbitrary Laplacian action) by z3/nlsat over the reals: z,w equal the "
              "documented ones, psi'+z|psi'|^2=w, x=|psi'|^2>=0, documented branch, refusal iff some site has a negative "
-             "discriminant, plus three solvability lemmas. Bit-level FP behaviour (traps, rounding) is not decided.",
+             "discriminant, plus three solvability lemmas; on arrays: the inputs are not written and the results are new arrays (also for gamma = 0). "
+             "Bit-level FP behaviour (traps, rounding) is not decided.",
         design_ref="DESIGN.md section 4 C02",
         technique="contract-based deductive verification: symbolic execution of the real source with opaque cuts, VCs to z3 (nlsat) / cvc5",
         note=TRUST + " FP traps (underflow refusals) invisible; thorough tier adds a bounded native cross-check (labelled bounded).",
@@ -79,7 +80,8 @@ CLAIMS["C12"] = dict(
          "returned dt = dt_in * multiplier^(number of refusals) = the dt of the answered attempt, never returns a refused result, raises only after a "
          "refusal and only when not adaptive or the retries are exhausted. On the real update() (callees stubbed by contracts, screening loop cut): dt "
          "returned in (0, dt_max], equals dt_init with adaptivity off, the window rule min(1/2(dt + dt_init/delta), dt_max) with delta the mean of the last "
-         "`window` entries after step > window, history grows by one per step. All option values, all histories, no bound.",
+         "`window` entries after step > window, history grows by one per step; on the real solve() every run - also a repeated one on the same solver - "
+         "hands the runner dt_init and an empty history. All option values, all histories, no bound. One defect (repeated solve() kept the adaptive state) repaired by a fix: commit.",
     design_ref="DESIGN.md section 4 C12",
     technique="contract-based deductive verification: loop invariants + modular callee contracts on the real methods, VCs to z3",
     note=TRUST + " Options are assumed to satisfy validate() plus dt_init>0, max_solve_retries>=0, adaptive_window>=1. The 1e-10 floor on delta is part of the stated rule.")
@@ -90,18 +92,23 @@ CLAIMS["C13"] = dict(
          "edge and component, the direct double sum of J[j,k]*a[j]/|c_i - r_j| over all sites; the real get_induced_vector_potential implements the Polyak "
          "update and error = max over edges of |kernel - A_prev| / max(|A_next|, 1e-20); on the real update() the screening loop returns only when the "
          "last error is below the tolerance, raises RuntimeError only when the budget is exhausted without convergence, and with screening off returns "
-         "the input potential after a single pass. The 'modest multiple of the tolerance' clause is a numerical bound and only covered by the bounded run.",
+         "the input potential after a single pass; the real Mesh.get_quantity_on_site (site average of the edge currents fed to the kernel) is half the mean over "
+         "the incident edge ends of q_e x unit direction (bincount as guarded finite sums). The 'modest multiple of the tolerance' clause is a numerical bound "
+         "and only covered by the bounded run.",
     design_ref="DESIGN.md section 4 C13",
     technique="contract-based deductive verification: generated reduction/map loop invariants on the kernel source, loop contract on update(), VCs to z3",
-    note=TRUST + " Precondition: no edge centre coincides with a site. The site average (bincount) is not under contract. Unit factor mu0/4pi K0/A0 xi^2 belongs to C08.")
+    note=TRUST + " Preconditions: no edge centre coincides with a site; every site has an incident edge. Unit factor mu0/4pi K0/A0 xi^2 belongs to C08.")
 
 CLAIMS["C20"] = dict(
     category="proof",
     text="The real Biot-Savart kernels (z and vector), executed as their Python source with mechanically generated loop invariants, equal the direct "
          "sums mu0/4pi * sum_k a_k (J_k x r)/|r|^3 of the docstring for every evaluation point off the sheet; each summand is linear in the current "
          "densities; the scalar kernel's summands are those of the z component of the vector kernel; the four pairwise-distance kernels and the "
-         "cdist dispatcher are correct. NOT under contract (bounded native run only, thorough tier): pint unit conversion, convert_field round trip, "
-         "Solution.field_at_position assembly, loop vector potential vs quadrature.",
+         "cdist dispatcher are correct. With the pint model (symbolic unit factors) and vectorised reductions as finite sums over a symbolic range: "
+         "Solution.vector_potential_at_position = (mu0/4pi) sum K a / r in SI per part, total = applied + supercurrent + normal parts; the sheet current "
+         "density and its total; Mesh.get_quantity_on_site linear in the edge currents; convert_field (B = mu0 H, same-kind conversions, round trip). "
+         "Solution.field_at_position and biot_savart_2d under call contracts; the loop vector potential is its documented closed form. The pint library "
+         "itself and the closed form vs quadrature only in the bounded native run.",
     design_ref="DESIGN.md section 4 C20",
     technique="contract-based deductive verification: generated reduction/map loop invariants on the kernel sources, summand VCs to z3",
     note=TRUST + " Evaluation points off the film plane (r != 0). Linearity of the whole sum from linearity of the summand is a trusted finite-sum lemma.")
@@ -111,7 +118,9 @@ CLAIMS["C09"] = dict(
          "inputs: the 7 parallel kernels are race free (iteration i writes only its own slice, reads nothing another iteration writes, no loop-carried "
          "state reaches a written value), every element of their np.empty output buffers is assigned before use, and the random sample times of "
          "validate_terminal_currents reach nothing but the accept/reject decision, which for currents balanced at all times does not depend on them. "
-         "The thorough tier adds a bounded native run (sha256 over 3 configurations x 1/4/16 threads in fresh processes).",
+         "Bounded native runs (quick tier, reduced): sha256 of all recorded bytes across heap states, hash seeds and thread counts in fresh processes, and a "
+         "history-independence harness - the same simulation on objects with a history (options / device / copy / other solvers alive / solver solved "
+         "before / output path / parameter objects reused) is bit-identical to the run on freshly built objects. One defect found by it was repaired by a fix: commit.",
     design_ref="DESIGN.md section 4 C09",
     technique="contract-based deductive verification of the source-level hazards (generated loop invariants with race-freedom side conditions); bit identity only bounded",
     note=TRUST + " Triangle/qhull/SuperLU/numba code generation are outside contracts; level claimed is 'other', not proof.")
@@ -123,10 +132,13 @@ CLAIMS["C05"] = dict(
          "state S(i); every frame written is labelled (s, T(s)) and holds S(s); frames are written at multiples of save_every and at the final step; the "
          "buffer written with a frame holds the steps since the previous frame once, in order, zero padded; the loop leaves at the first step whose time "
          "reaches end_time; thermalisation is never recorded and the recorded stage restarts from step 0, time 0 with a cleared buffer (real Runner.run); "
-         "update() records dt / probes / screening iterations once per step. Reader side (DynamicsData.from_hdf5, Solution.times, HDF5 ranks) is covered "
-         "only by the exhaustive bounded native run (k <= N+2, N <= 9). Four defects found here were repaired by fix: commits.",
+         "update() records dt / probes / screening iterations once per step. Reader side, against the writer's postcondition as file model (symbolic number of "
+         "frames, buffer size and probes): the real DynamicsData.from_hdf5 (frame loop cut at an invariant over lists of symbolic length) returns one record per "
+         "step, in step order, time = T(j+1); the real Solution.times returns exactly the frame times; load_tdgl_data reads the records over all frames whatever "
+         "frame is loaded. What save_time_step makes of the buffer on disk (squeeze / ranks) is covered only by the exhaustive bounded native run (k <= N+2, "
+         "N <= 9). Four defects found here were repaired by fix: commits.",
     design_ref="DESIGN.md section 4 C05",
-    technique="contract-based deductive verification: loop invariant with ghost history (quantified buffer invariant) on the real runner, VCs to z3; bounded native stand-in for the HDF5 reader",
+    technique="contract-based deductive verification: loop invariants with ghost history on the real runner and on the real reader (lists of symbolic length, prefix-mask and induction lemmas with their own VCs), VCs to z3; bounded native stand-in for the HDF5 layout",
     note=TRUST + " dt>0 from C12. tqdm/logging/monitor outside the contract.")
 
 CLAIMS["C15"] = dict(
@@ -148,8 +160,9 @@ CLAIMS["C11"] = dict(
          "running_state is append-only (any read fails the obligation), inputs are not mutated and outputs do not alias inputs, probes only add records. "
          "On the real runner loop with SYMBOLIC save_every the update of step i is called with S(i), T(i) and the previous dt whatever the save interval, and a "
          "frame labelled s holds S(s) (C05) - so same-label frames coincide across recording configurations (corollary). On the real solve(): a seed "
-         "solution supplies psi, mu, currents and induced potential of its loaded frame as initial values, in update order. Bit-for-bit equality and the "
-         "resume equality itself are only covered by the bounded native run.",
+         "solution supplies psi, mu, currents and induced potential of its loaded frame as initial values, in update order, and every run starts from the "
+         "time-dependent inputs at time zero with the operators refreshed together with the reference potential; the step function does not write its "
+         "inputs (array-level frame contract). Bit-for-bit equality and the resume equality itself are only covered by the bounded native run.",
     design_ref="DESIGN.md section 4 C11",
     technique="contract-based deductive verification: non-interference obligations on update(), runner loop invariant for symbolic save_every, seed contract on solve(); bounded native resume run",
     note=TRUST + " Bit identity is A1/A6 (not decided).")
@@ -197,8 +210,10 @@ CLAIMS["C08"] = dict(
          "are SYMBOLIC positive reals: the dimensionless vector potential equals A_phys/(Bc2 xi), the potential is evaluated at the physical edge centres, the "
          "dimensionless current density equals 4 (I_phys/length)/K0, the screening weights equal (mu0/4pi)(K0/A0) a_i xi^2 per length unit - expressions in "
          "physical quantities only, hence unit independent. Lemma: the link exponents around any triangle in a uniform field sum to 2 pi flux/Phi_0 for any "
-         "recentring. Solution.field_at_position passes the DEVICE's length and current units to the Biot-Savart routine. 'Same dimensionless solution' is a "
-         "corollary (shared mesh; mu up to a constant); Solution.current_density only in the bounded native run.",
+         "recentring. Physical outputs with SYMBOLIC unit factors: Solution.load_tdgl_data gives the sheet current density K0 (real Device.K0, SI) x site current in "
+         "current units per length unit; Solution.vector_potential_at_position gives (mu0/4pi) sum K a / r in SI for stored densities in any units and any "
+         "requested output units; Solution.field_at_position passes the DEVICE's length and current units to the Biot-Savart routine. 'Same dimensionless "
+         "solution' is a corollary (shared mesh; mu up to a constant); magnetic_moment / fluxoid / path currents only in the bounded native run.",
     design_ref="DESIGN.md section 4 C08",
     technique="contract-based deductive verification: symbolic unit scale factors (pint model) through the real constructor, VCs to z3 (nonlinear real arithmetic)",
     note=TRUST + " pint itself is replaced by a model (assumed contract); Triangle meshing is not unit-covariant bit-wise (same dimensionless mesh assumed).")
